@@ -45,6 +45,9 @@ def build(text, route):
         return PauliString(pauli_str=mask) @ PauliString(pauli_str=other)
     if route == "tensor" and n >= 2:
         return PauliString(pauli_str=text[:n // 2]) + PauliString(pauli_str=text[n // 2:])
+    if route == "edited":            # used (hashed, iterated, compared) under another text, then edited in place
+        from harness.cls import mk_string
+        return mk_string(text, "edited")
     if route == "copy":
         return build(text, "assign").copy()
     if route == "factory":
@@ -52,7 +55,7 @@ def build(text, route):
     return PauliString(pauli_str=text)
 
 
-ROUTES = ["parse", "assign", "overwrite", "substring", "single", "inc", "product", "tensor", "copy", "factory"]
+ROUTES = ["parse", "assign", "overwrite", "substring", "single", "inc", "product", "tensor", "copy", "factory", "edited"]
 
 
 def impl(case):
